@@ -67,6 +67,10 @@ scen('default-nested', lambda o: BOX + mk.class_src('K', ['boxes = Ref(Box).repe
      [b'\x00\x00\x01\x07\x00\x00\x09', b'\x01\x02\x00\x00\x00\x00\x08', b'\x00\x00\x00\x00\x01'], [{}, {'z': 3}])
 scen('shared-proto', lambda o: PT + 'proto = Pt(x=5)\n' + mk.class_src('K', ['a = Ref(proto)', 'z = Int(1)'], o) + mk.class_src('K2', ['h = Int(1)', 'a = Ref(proto)', 'b = Ref(Pt)'], o),
      [b'\x01\x02\x03', b'\x00\x00\x00', b'\x09\x08\x07'], [{}, {'z': 1}])
+PTL = mk.class_src('Ptl', ['x = Int(1)', 'tags = Int(1).repeated(2, default=[7, 8])'])
+# the program keeps a handle on the packet it declared as prototype and goes on using (changing) it
+scen('origin-local-list', lambda o: PTL + 'proto = Ptl(x=5)\n' + mk.class_src('K', ['z = Int(1)', 'l = Ref(Ptl).repeated(1, default=[proto])', 'a = Ref(proto).when(z)'], o),
+     [b'\x01\x02\x03\x04\x05\x06\x07', b'\x00\x00\x00\x00', b'\x00\x09\x08\x07'], [{}, {'z': 1}], local=True, tags=['origin'])
 scen('expr', lambda o: mk.class_src('K', ['p = Int(1)', 'n = Int(1)', 'x = Int(1)', 'd = Data(p + (n + x))', 'l = Int(1).repeated((n * 2) - x, when=(p + n) > x)', 'z = Int(1)'], o),
      [b'\x01\x01\x01ABC\x05\x09', b'\x00\x02\x00XY\x01\x02\x03\x04\x07', b'\x00\x00\x00\x08'], [{}, {'p': 1, 'd': b'q'}])
 scen('positioned', lambda o: mk.class_src('K', ['n = Int(1)', 'd = Data(2).at(n)', 'e = Em().aligned(4)'], o),
@@ -137,6 +141,8 @@ def op_alphabet(sc, classes):
     for slot in range(3):
         for what in ('scalar', 'bytes', 'append', 'nested', 'deep', 'pack'):
             ops.append((what, slot))
+    if 'origin' in sc['tags']:
+        ops.append(('origin', 0))
     return ops
 
 
@@ -177,6 +183,15 @@ def apply_op(mod, sc, live, op):
             raw = b'\x01' + raw + b'\x00\x00'
         live.append(cls.unpack(raw))
         return len(live) - 1
+    if kind == 'origin':
+        # the packet the program declared as prototype is not one of the live packets: all of them are bystanders
+        o = mod.proto
+        nm, v = first_field(o, lambda v: isinstance(v, int) and not isinstance(v, bool))
+        setattr(o, nm, (v + 1) % 7)
+        nm, v = first_field(o, lambda v: isinstance(v, list))
+        if nm is not None:
+            v.append(3)
+        return 'all'
     slot = op[1]
     if slot >= len(live):
         return None
@@ -266,6 +281,13 @@ def run_history(mod, sc, hist, classes):
         if j is None:
             continue
         trans += 1
+        if j == 'all':
+            for i in range(len(live)):
+                si, bi = snap(live[i]), try_pack(live[i])
+                if si != S[i] or bi != B[i]:
+                    return {'sig': 'bystander fields changed', 'what': 'step %d: changing the packet that was declared as prototype changed packet %d: %r / %r -> %r / %r' % (
+                        step, i, S[i], B[i], si, bi)}, None, trans
+            continue
         if j == len(S):
             S.append(None)
             B.append(None)
@@ -300,8 +322,10 @@ def run_history(mod, sc, hist, classes):
                     return {'sig': 'shared mutable sub-object', 'what': 'step %d %r: packet %d.%s and packet %d.%s are the same object' % (
                         step, op, owners[oid][0], owners[oid][1], i, where)}, None, trans
                 owners[oid] = (i, where)
-    # the declared defaults are still what they were
-    for c in classes:
+    # the declared defaults are still what they were - unless the program itself changed the object it had declared as a
+    # default (operation 'origin'): what a LATER construction then yields is a matter of C19, not of this property, and the
+    # library snapshots Ref(proto) at declaration while it keeps a given default LIST by reference (Python's usual semantics)
+    for c in ([] if any(op[0] == 'origin' for op in hist) else classes):
         now = (snap(getattr(mod, c)()), try_pack(getattr(mod, c)()))
         if now != base_default[c]:
             sig = 'defaults changed' if now[0] != base_default[c][0] else 'default pack changed'
@@ -326,7 +350,7 @@ def define(scname, gen, w):
     sc = SCENARIOS[scname]
     body = sc['build'](None if gen else OFF)
     if sc['local']:
-        names = re.findall(r'^class (\w+)\(', body, re.M)
+        names = re.findall(r'^class (\w+)\(', body, re.M) + re.findall(r'^(proto\w*) = ', body, re.M)
         ind = ''.join('    ' + l + '\n' for l in body.splitlines())
         body = 'def _make():\n%s    return %s\n%s = _make()\n' % (ind, ', '.join(names), ', '.join(names))
     mod = w.module(body)
@@ -348,7 +372,7 @@ def snippet(scname, gen, hist):
                 raw = b'\x01' + raw + b'\x00\x00'
             lines.append('live.append(%s.unpack(%r))' % (op[1], raw))
         else:
-            lines.append('# %s on live[%d]  (see mc/props/c13.py apply_op)' % (op[0], op[1]))
+            lines.append('# %s on live[%d]  (see mc/props/c13.py apply_op; origin = change the packet named proto)' % (op[0], op[1]))
     lines.append('print([p.pack() for p in live])')
     return '\n'.join(lines)
 
@@ -372,9 +396,16 @@ def _shard(shard, nshards, payload):
                         continue
                     # class objects carry field state: every history runs on freshly defined classes; first the
                     # pack-free twin of the history (see below), then the history itself
+                    quiet = None
+                    if 'origin' in sc['tags'] and len(hist) >= 2:
+                        # the twin changes a module-level object: it gets a module of its own
+                        with mk.World() as wq:
+                            modq, classesq, _ = define(scname, gen, wq)
+                            quiet = run_quiet(modq, sc, hist, classesq)
                     with mk.World() as w:
                         mod, classes, body = define(scname, gen, w)
-                        quiet = run_quiet(mod, sc, hist, classes) if len(hist) >= 2 else None
+                        if 'origin' not in sc['tags']:
+                            quiet = run_quiet(mod, sc, hist, classes) if len(hist) >= 2 else None
                         err, canon, trans = run_history(mod, sc, hist, classes)
                     st.inc('histories')
                     st.inc('transitions', trans)
@@ -427,9 +458,11 @@ def replay(case):
         return sched_c13.replay(case)
     hist = [tuple(o) for o in case['hist']]
     sc = SCENARIOS[case['scenario']]
+    with mk.World() as wq:
+        modq, classesq, _ = define(case['scenario'], case['gen'], wq)
+        quiet = run_quiet(modq, sc, hist, classesq) if len(hist) >= 2 else None
     with mk.World() as w:
         mod, classes, _ = define(case['scenario'], case['gen'], w)
-        quiet = run_quiet(mod, sc, hist, classes) if len(hist) >= 2 else None
         err, canon, _ = run_history(mod, sc, hist, classes)
     if not err and quiet is not None and canon is not None and quiet != canon[0]:
         err = {'sig': 'an earlier pack() changes later observations', 'what': 'with packs %r, without any pack %r' % (canon[0], quiet)}
